@@ -252,8 +252,10 @@ Definition io_out_pack (o : io_out) : N :=
 Definition io_out_of (w : N) : io_out :=
   {| y_valid := N.testbit w 0; y_first := N.testbit w 1; y_last := N.testbit w 2; y_data := bits w 3 8 |}.
 
+(* the lock-step targets expose the stream fields masked by stream.valid (payload, first and last are don't-care
+   while valid is low), so the packed model does the same *)
 Definition io_mstep (mps depth : nat) (ep : N) (m : io_state) (w : N) : io_state * N :=
-  (io_next mps depth m (io_in_of ep w), io_out_pack (io_outf depth m)).
+  (io_next mps depth m (io_in_of ep w), io_out_pack (io_norm (io_outf depth m))).
 
 Definition io_menv (mps : nat) (ep : N) (m : io_state) (w : N) : bool := io_env mps m (io_in_of ep w).
 
